@@ -71,6 +71,7 @@ pub fn enc_event(frames: &[Vec<u8>]) -> Value {
 }
 
 pub struct Lcg(pub u64);
+#[allow(dead_code)]
 impl Lcg {
     pub fn next(&mut self) -> u64 {
         self.0 = self.0.wrapping_mul(6364136223846793005).wrapping_add(1442695040888963407);
